@@ -86,11 +86,28 @@ func defaultSuccess(fn *ssa.Function, r *ssa.Return) bool {
 	}
 	switch x := rv.(type) {
 	case *ssa.Call:
-		return !isErrWrapper(x) // tail call: success iff the callee succeeded
+		if isErrWrapper(x) {
+			return false
+		}
+		return !onlyOnNonNilEdge(fn, r, rv) // tail call: success iff the callee succeeded
 	case *ssa.Extract:
-		return true
+		return !onlyOnNonNilEdge(fn, r, rv)
 	}
 	return false
+}
+
+// onlyOnNonNilEdge: the return is reachable only through the non-nil edge of a test of v
+// (`if err != nil { return err }`): a failure exit although v is returned unwrapped.
+func onlyOnNonNilEdge(fn *ssa.Function, r *ssa.Return, v ssa.Value) bool {
+	al := core.Aliases(fn, v)
+	edges := core.CondEdges(fn, true, func(cond ssa.Value) (bool, bool) {
+		x, nonNil, ok := nilCmp(cond)
+		if !ok || !al[x] {
+			return false, false
+		}
+		return nonNil, true
+	})
+	return len(edges) > 0 && core.OnlyViaEdges(fn, r, edges)
 }
 
 // buildLang constructs the automaton of fn.
@@ -442,4 +459,32 @@ func enumExhausted(ifi *ssa.If, p *core.Program) bool {
 		}
 	}
 	return n > 0
+}
+
+// normaliseRaw: when either automaton moves raw bytes of unknown length ("RAW"),
+// the sized labels ("RAW16") of both are compared as plain "RAW".
+func normaliseRaw(a, b *nfa) {
+	has := func(x *nfa) bool {
+		for _, m := range x.tr {
+			if _, ok := m["RAW"]; ok {
+				return true
+			}
+		}
+		return false
+	}
+	if !has(a) && !has(b) {
+		return
+	}
+	for _, x := range []*nfa{a, b} {
+		for s, m := range x.tr {
+			for l, ts := range m {
+				if strings.HasPrefix(l, "RAW") && l != "RAW" {
+					for _, t := range ts {
+						x.addTr(s, "RAW", t)
+					}
+					delete(m, l)
+				}
+			}
+		}
+	}
 }
